@@ -290,8 +290,16 @@ def run(ctx):
     if ctx.broken and not ctx.failures:
         # the premise is broken but no failing schedule was met yet: search harder (storm with the raised budget)
         base["broken"] = True
-        apply_jobs(ctx, [dict(base, phase="storm", datasets=[d], share=len(datasets), tag="b%d" % di) for di, d in enumerate(datasets)], jt)
-        lap("storm_after_broken_premise")
+        extra = [dict(base, phase="storm", datasets=[d], share=len(datasets), tag="b%d" % di) for di, d in enumerate(datasets)]
+        seen_t = set()
+        for t in fp_state.get("targets", []):
+            key = (t["di"], t["op"]["op"], t["opcodes"])
+            if key in seen_t or len(seen_t) >= 6:
+                continue
+            seen_t.add(key)
+            extra.append(dict(base, phase="targeted", datasets=[datasets[t["di"]]], target=t, tag="t%d" % len(seen_t)))
+        apply_jobs(ctx, extra, jt)
+        lap("search_after_broken_premise")
 
 
 def _worker_init():
@@ -387,6 +395,8 @@ def _job(job):
               storm_search(rec, datasets, rec.rng, quick, share=job["share"])
           elif ph == "stress":
               stress(rec, datasets, rec.rng, quick, job["r0"], job["r1"])
+          elif ph == "targeted":
+              targeted_search(rec, datasets, rec.rng, quick, job["target"])
           else:
               raise ValueError(ph)
       except Hung as e:
@@ -558,6 +568,7 @@ def footprint_premise(ctx, pq, datasets, jobs, results, state):
     """each operation alone under the line tracer; every transition of the state reachable from the
     parent handle must be a memo add, and all traces must agree on one value per key"""
     owner, sels = state["owner"], state["sels"]
+    targets = state.setdefault("targets", [])
     for di, (spec, path) in enumerate(datasets):
         inter = conc.Interner()
         traces, metas = [], []
@@ -607,6 +618,9 @@ def footprint_premise(ctx, pq, datasets, jobs, results, state):
             name = "footprint premise [%s ds%d %s]: every transition is a memo add" % (case["footprint"], di, okey(case["op"]))
             if fb:
                 t = kinds[int(fb[0][0])]
+                if case["footprint"].startswith("fresh"):
+                    targets.append({"di": di, "op": case["op"], "k": int(fb[0][0]) + 1, "opcodes": case["footprint"].endswith("opcode"),
+                                    "keys": t[2]})
                 ctx.obligation(name, False, "destructive transition at %s: %s (key %s); %d line events" % (
                     t[0], json.dumps(t[2]), inter.key_name(int(fb[0][1])), nlines))
             else:
@@ -711,7 +725,9 @@ def check_pair(ctx, spec, path, solo, ops, plan, what, opcodes=False):
         return False
     got = [conc.canon(r) for r in res]
     case = {"mode": "forced", "dataset": spec, "ops": ops, "plan": plan}
-    if opcodes:
+    if isinstance(opcodes, (list, tuple)):
+        case["granularity"] = ["opcode" if o else "line" for o in opcodes]
+    elif opcodes:
         case["granularity"] = "opcode"
         what += "-opcode"
     ctx.case(case)
@@ -774,6 +790,36 @@ def forced_search(ctx, datasets, rng, quick, budget=None):
                 k = rng.randrange(1, nl * (4 if opc else 1))
                 check_pair(ctx, spec, path, solo, [a, b], [[0, k, "lines"], [1, BIG, "lines"]], "at-line", opc)
                 done += 1
+
+
+def targeted_search(ctx, datasets, rng, quick, target):
+    """The footprint of operation A shows a destructive transition at its k-th shared write.  Look for the victim:
+    a reader B preempted at EVERY line x (budgeted), then A runs until right after that write (at the granularity the
+    transition was seen at), then B finishes, then A - two specific preemptions, one on each side."""
+    from fastparquet import ParquetFile
+    spec, path, solo = datasets[0]
+    a, opc = target["op"], target["opcodes"]
+    ks = sorted(set([target["k"], max(1, target["k"] - 1)]))
+    first = spec["cols"][0] if spec.get("cols") else None
+    readers = [{"op": "columns"}, {"op": "statistics"}, {"op": "to_pandas", "columns": [first]} if first else {"op": "to_pandas"},
+               {"op": "count"}, {"op": "head", "n": 2, "columns": [first]} if first else {"op": "head", "n": 2}]
+    budget = 700 if quick else 3000
+    runs = 0
+    for b in readers:
+        solo(b)
+        try:
+            nb = with_alarm(150, conc.count_steps, ParquetFile(path), b, None, False)
+        except TimeoutError:
+            continue
+        stride = max(1, (nb * len(ks) * len(readers)) // budget)
+        for x in range(1 + rng.randrange(stride), nb, stride):
+            for k in ks:
+                plan = [[0, x, "lines"], [1, k, "writes"], [0, BIG, "lines"], [1, BIG, "lines"]]
+                runs += 1
+                if check_pair(ctx, spec, path, solo, [b, a], plan, "targeted", [False, opc]):
+                    ctx.extra["targeted_runs"] = ctx.extra.get("targeted_runs", 0) + runs
+                    return
+    ctx.extra["targeted_runs"] = ctx.extra.get("targeted_runs", 0) + runs
 
 
 def multi_switch(ctx, datasets, rng, quick):
@@ -1116,8 +1162,9 @@ def replay(rep):
             return bad
         path = conc.build_dataset(spec, tmp)
         solo = Solo(path)
-        opc = case.get("granularity") == "opcode"
-        if opc and not conc.warm_opcodes():
+        g = case.get("granularity")
+        opc = [x == "opcode" for x in g] if isinstance(g, list) else (g == "opcode")
+        if (opc if not isinstance(opc, list) else any(opc)) and not conc.warm_opcodes():
             print("opcode tracing unavailable")
             return 1
         if mode == "forced":
